@@ -397,6 +397,11 @@ impl<'a> Label<'a> {
         self.data.is_empty()
     }
 
+    /// Returns the bytes of the label, exactly as they appear on the wire
+    pub fn as_bytes(&self) -> &[u8] {
+        &self.data
+    }
+
     /// Transforms the inner data into its owned type
     pub fn into_owned<'b>(self) -> Label<'b> {
         Label {
